@@ -488,7 +488,7 @@ func (s *splitter) splitLogging(path string, m map[string]any) []frag {
 func (s *splitter) splitRefMap(path string, m map[string]any, defaults map[string]any) []frag {
 	out := s.absent()
 	maps := make([]map[string]any, s.n)
-	if defaults != nil && len(m) >= 2 && s.n >= 3 && s.coin("dep-three-step", 1, 2) {
+	if defaults != nil && len(m) >= 2 && s.n >= 3 && s.coin("dep-three-step", 3, 4) {
 		// three mentions: one dependency first, then all of them with the default settings (the short list
 		// spelling), then the settings that differ from the defaults
 		names := sortedKeys(m)
@@ -699,6 +699,26 @@ func (s *splitter) respell(path string, v any) any {
 	case []any:
 		if (gp == "services.*.dns" || gp == "services.*.dns_search" || gp == "services.*.tmpfs") && len(x) == 1 && s.coin("single", 1, 2) {
 			return x[0]
+		}
+		if gp == "services.*.ports" && s.coin("portdefaults", 1, 2) {
+			// the long syntax may leave the defaults out: they are filled in after the merge, and the
+			// entry is still the same port for the "one entry per key" rule
+			out := make([]any, len(x))
+			for i, e := range x {
+				out[i] = e
+				if m, ok := e.(map[string]any); ok {
+					c := cloneTree(m).(map[string]any)
+					if c["protocol"] == "tcp" && s.coin("dropproto", 1, 2) {
+						delete(c, "protocol")
+						s.used["port-default-protocol-omitted"]++
+					}
+					if c["mode"] == "ingress" && s.coin("dropmode", 1, 2) {
+						delete(c, "mode")
+					}
+					out[i] = c
+				}
+			}
+			return out
 		}
 		if gp == "services.*.ports" && s.coin("shortports", 1, 2) {
 			out := make([]any, len(x))
